@@ -140,3 +140,32 @@ MUTANTS += [
       [(FILT, "        if self.q is None:  # Set parameters according to data type of x\n            self.set_parameters(x.dtype)\n",
         "        if self.q is None or self.shift is None:  # Set parameters according to data type of x\n            self.set_parameters(x.dtype)\n")]),
 ]
+
+MUTANTS += [
+    # ------------------------------------------------------------------------------------------- C19 finite_difference
+    B("fd-no-final-reset", ["C19"], ["R-PROTOCOL"],
+      [(ROUT, "        # Reset the sensitivities for next output\n        blk.reset()\n", "        # Reset the sensitivities for next output\n")], "finite_difference"),
+    B("fd-no-initial-reset", ["C19"], ["R-PROTOCOL"],
+      [(ROUT, "    # Initial reset in case some memory is still left\n    blk.reset()\n", "")], "finite_difference"),
+    B("fd-restore-missing-imag", ["C19"], ["R-RESTORE"],
+      [(ROUT, "                # Restore original state\n                if is_iterable:\n                    it[0] = x0\n                    Sin.state = x\n                else:\n                    Sin.state = x0\n\n            # Go to the next",
+        "                # Restore original state\n                if is_iterable:\n                    it[0] = x0\n                    Sin.state = x\n\n            # Go to the next")], "finite_difference"),
+    B("fd-x0-view", ["C19"], ["R-RESTORE"],
+      [(ROUT, "                x0 = it[0].copy()\n", "                x0 = it[0]\n")], "finite_difference"),
+    B("fd-f0-nocopy", ["C19"], ["R-RESTORE"],
+      [(ROUT, "        f0[Iout] = (output.copy() if hasattr(output, \"copy\") else output)\n", "        f0[Iout] = output\n")], "finite_difference"),
+    B("fd-dxan-nocopy", ["C19"], ["R-RESTORE"],
+      [(ROUT, "            dx_an[Iout][Iin] = (sens.copy() if hasattr(sens, \"copy\") else sens)\n", "            dx_an[Iout][Iin] = sens\n")], "finite_difference"),
+    B("fd-writeback-dropped-imag", ["C19"], ["R-FD-WRITEBACK"],
+      [(ROUT, "                    it[0] += dx*1j*sf\n                    Sin.state = x\n", "                    it[0] += dx*1j*sf\n")], "finite_difference"),
+    B("fd-sibling-exc-drift", ["C19"], ["R-SIBLING-EXC"],
+      [(ROUT, "                        except (IndexError, TypeError):\n                            dgdx_an = np.imag(", "                        except IndexError:\n                            dgdx_an = np.imag(")], "finite_difference"),
+    B("fd-reads-before-sens", ["C19"], ["R-PROTOCOL"],
+      [(ROUT, "        # Perform the analytical sensitivity calculation\n        blk.sensitivity()\n\n        # Store all input sensitivities for this output\n        for Iin, Sin in enumerate(inps):\n            sens = Sin.sensitivity\n            dx_an[Iout][Iin] = (sens.copy() if hasattr(sens, \"copy\") else sens)\n",
+        "        # Store all input sensitivities for this output\n        for Iin, Sin in enumerate(inps):\n            sens = Sin.sensitivity\n            dx_an[Iout][Iin] = (sens.copy() if hasattr(sens, \"copy\") else sens)\n\n        # Perform the analytical sensitivity calculation\n        blk.sensitivity()\n")], "finite_difference"),
+    T("twin-fd-restore-order", ["C19"],
+      [(ROUT, "            # Restore original state\n            if is_iterable:\n                it[0] = x0\n                Sin.state = x\n            else:\n                Sin.state = x0\n\n            # If the input state is complex",
+        "            # Restore original state\n            if not is_iterable:\n                Sin.state = x0\n            else:\n                it[0] = x0\n                Sin.state = x\n\n            # If the input state is complex")]),
+    T("twin-fd-x0-nparray", ["C19"],
+      [(ROUT, "                x0 = it[0].copy()\n", "                x0 = np.array(it[0])\n")]),
+]
